@@ -100,9 +100,92 @@ def r15_2(chk, P):
                 r = F.ex[F.strip_casts(F.ex[s]['c'][1])]
                 if r['k'] == 'bin' and r['op'] == '-' and F.ex[F.strip_casts(r['c'][1])]['k'] == 'flt' and F.ex[F.strip_casts(r['c'][1])]['v'] > 0:
                     ok = True
+    _interpolated_setting(chk, P, F, stores)
     chk.ob('R15.2', F.name, 'base-setting-below-table-size', ok, F.where(stores[0]),
            'when the request matches the last table point the setting is j-epsilon: ' + '; '.join(detail)[:200] if ok else
            'no arm handles req == last table point by staying below the table size: ' + '; '.join(detail)[:200])
+
+
+def _interpolated_setting(chk, P, F, stores):
+    """the interpolating arm of get_setup_template: *base_setting = j + (req-low)/(high-low) stays below j+1 because the search
+    loop is left (break) only with low <= req < high -- strictly below the next table point (exact linear domain over the
+    three quantities; a strict comparison is a row with constant -1)"""
+    import linrel
+    import cfg as cfg_
+    defs = common.single_defs(F)
+
+    def expand(e, depth=0):
+        e = F.strip_casts(e)
+        nd = F.ex[e]
+        if nd['k'] == 'paren':
+            return expand(nd['c'][0], depth)
+        if nd['k'] == 'ref' and nd['decl'].get('kind') == 'var' and nd['decl']['id'] in defs and depth < 3:
+            return expand(defs[nd['decl']['id']], depth + 1)
+        return e
+
+    def txt(e):
+        return F.s(expand(e)).replace(' ', '')
+    for s_ in stores:
+        r = F.ex[expand(F.ex[s_]['c'][1])]
+        if r['k'] != 'bin' or r['op'] != '+':
+            continue
+        frac = None
+        for side in r['c']:
+            q = F.ex[expand(side)]
+            if q['k'] == 'bin' and q['op'] == '/':
+                frac = q
+        if frac is None:
+            continue
+        num, den = F.ex[expand(frac['c'][0])], F.ex[expand(frac['c'][1])]
+        if not (num['k'] == 'bin' and num['op'] == '-' and den['k'] == 'bin' and den['op'] == '-'):
+            chk.assumed('R15.2', F.name, 'interpolated-setting-below-next-point', F.where(s_),
+                        'the interpolation is not of the form (x-low)/(high-low); not decided')
+            return
+        X, L1 = txt(num['c'][0]), txt(num['c'][1])
+        H, L2 = txt(den['c'][0]), txt(den['c'][1])
+        # conditions under which the search loop is left early
+        prem = []
+        L = cfg_.loops(F)
+        for h, body in L.items():
+            for b in body:
+                blk = F.blocks[b]
+                t = blk.get('term')
+                if b == h or not t or t.get('cond') is None or len(blk['succs']) != 2:
+                    continue
+                for i_, sx in enumerate(blk['succs']):
+                    if sx is not None and sx not in body:
+                        prem.append((t['cond'], i_ == 0))
+        # a && b is expanded by the CFG: collect the comparison of every block on the way out as one conjunction per exit
+        po = linrel.Poly()
+        rows = 0
+        for h, body in L.items():
+            for b in body:
+                t = F.blocks[b].get('term')
+                if not t or t.get('cond') is None or b == h:
+                    continue
+                c = F.ex[F.strip_casts(t['cond'])]
+                if c['k'] != 'bin' or c['op'] not in ('<', '<=', '>', '>='):
+                    continue
+                a_, b_ = txt(c['c'][0]), txt(c['c'][1])
+                if not {a_, b_} & {X} or not {a_, b_} & {L1, H}:
+                    continue
+                # this comparison holds (true edge) on the way to the break: the true successor stays on the way out
+                op = c['op']
+                if op in ('>', '>='):
+                    a_, b_, op = b_, a_, {'>': '<', '>=': '<='}[op]
+                po.add({a_: 1, b_: -1}, -1 if op == '<' else 0)
+                rows += 1
+        if rows == 0 or L1 != L2:
+            chk.assumed('R15.2', F.name, 'interpolated-setting-below-next-point', F.where(s_),
+                        'no comparison of the request with the table points found in the search loop; not decided')
+            return
+        ok = po.entails({X: 1, H: -1}, -1) and po.entails({L1: 1, X: -1}, 0)
+        chk.ob('R15.2', F.name, 'interpolated-setting-below-next-point', ok, F.where(s_),
+               f'the search loop is left with {L1} <= {X} < {H}: the fraction is in [0,1) and the setting stays below j+1 <= mappings' if ok else
+               f'the search loop can be left with {X} == {H}: the fraction is 1 and the setting reaches the table size itself '
+               '(mappings); every table indexed by (int)setting has exactly `mappings` rows beyond row 0')
+        return
+
 
 
 def r15_3(chk, P):
@@ -863,6 +946,133 @@ def r15_1(chk, P):
     return len(sites)
 
 
+def r15_15(chk, P, rule='R15.15'):
+    chk.rule(rule, 'the encoder\'s submission path forms no pointer in front of a buffer it has just allocated: in the functions of '
+             'block.c reachable from vorbis_analysis_wrote, every pointer computed from a local that holds the result of an allocation '
+             'in the same function (`work + a - b - c`) has a total offset that the if-conditions on the way make non-negative '
+             '(offset and conditions are linear forms over fields and constants; exact linear domain).  The pre-extrapolation primes '
+             'its predictor from the samples in front of the block centre: with fewer than `order` samples submitted that is in front '
+             'of the buffer')
+    import linrel
+    W = P.need('vorbis_analysis_wrote')
+    keys = [P.key(W)] + sorted(P.reachable([P.key(W)]))
+    n = 0
+    for k_ in keys:
+        F = P.fn.get(k_)
+        if F is None or F.entry is None or not F.file.endswith('block.c'):
+            continue
+        defs = common.single_defs(F)
+        heap = set()
+        for e in F.nodes('assign'):
+            nd = F.ex[e]
+            l, r = F.ex[F.strip_casts(nd['c'][0])], F.ex[F.strip_casts(nd['c'][1])]
+            if nd['op'] == '=' and l['k'] == 'ref' and l['decl'].get('kind') == 'var' and r['k'] == 'call' and \
+                    r['callee'].get('d') in ('malloc', 'calloc', 'realloc'):
+                heap.add(l['decl']['id'])
+        if not heap:
+            continue
+
+        def lin(e, depth=0):
+            e = F.strip_casts(e)
+            nd = F.ex[e]
+            k = nd['k']
+            if k == 'paren':
+                return lin(nd['c'][0], depth)
+            cv = common.const_val(F, e)
+            if isinstance(cv, int):
+                return {}, cv
+            if k == 'ref' and nd['decl'].get('kind') == 'var' and nd['decl']['id'] in defs and depth < 3:
+                return lin(defs[nd['decl']['id']], depth + 1)
+            if k == 'member':
+                return {F.s(e).replace(' ', ''): 1}, 0
+            if k == 'ref' and nd['decl'].get('kind') in ('param', 'var'):
+                return {'v%d' % nd['decl']['id']: 1}, 0
+            if k == 'bin' and nd['op'] in ('+', '-'):
+                a, b = lin(nd['c'][0], depth), lin(nd['c'][1], depth)
+                if a is None or b is None:
+                    return None
+                sg = 1 if nd['op'] == '+' else -1
+                d = dict(a[0])
+                for v, q in b[0].items():
+                    d[v] = d.get(v, 0) + sg * q
+                return d, a[1] + sg * b[1]
+            if k == 'bin' and nd['op'] == '*':
+                for x, y in ((nd['c'][0], nd['c'][1]), (nd['c'][1], nd['c'][0])):
+                    cx = common.const_val(F, x)
+                    ly = lin(y, depth)
+                    if isinstance(cx, int) and ly is not None:
+                        return {v: q * cx for v, q in ly[0].items()}, ly[1] * cx
+            return None
+
+        def ptr_offset(e):
+            """(base var id, linear offset) of a pointer expression rooted at a heap local, else None"""
+            e = F.strip_casts(e)
+            nd = F.ex[e]
+            if nd['k'] == 'paren':
+                return ptr_offset(nd['c'][0])
+            if nd['k'] == 'ref' and nd['decl'].get('id') in heap:
+                return nd['decl']['id'], ({}, 0)
+            if nd['k'] == 'bin' and nd['op'] in ('+', '-') and nd.get('t', '').endswith('*'):
+                for x, y in ((nd['c'][0], nd['c'][1]), (nd['c'][1], nd['c'][0])):
+                    if nd['op'] == '-' and x != nd['c'][0]:
+                        continue
+                    b = ptr_offset(x)
+                    o = lin(y)
+                    if b is not None and b[1] is not None and o is not None:
+                        sg = 1 if nd['op'] == '+' else -1
+                        d = dict(b[1][0])
+                        for v, q in o[0].items():
+                            d[v] = d.get(v, 0) + sg * q
+                        return b[0], (d, b[1][1] + sg * o[1])
+                    if b is not None:
+                        return b[0], None
+            return None
+        tops = []
+        for e in sorted(F.pos):
+            nd = F.ex[e]
+            if nd['k'] == 'bin' and nd['op'] in ('+', '-') and nd.get('t', '').endswith('*'):
+                p_ = F.sparent.get(e)
+                while p_ is not None and F.ex[p_]['k'] in ('cast', 'paren'):
+                    p_ = F.sparent.get(p_)
+                if p_ is not None and F.ex[p_]['k'] == 'bin' and F.ex[p_]['op'] in ('+', '-') and F.ex[p_].get('t', '').endswith('*'):
+                    continue        # not maximal
+                po_ = ptr_offset(e)
+                if po_ is not None:
+                    tops.append((e, po_))
+        for i_, (e, (base, off)) in enumerate(tops):
+            ok = False
+            why = 'the offset is not a linear form'
+            if off is not None:
+                po = linrel.Poly()
+                for c, pol in common.atomic_conditions(F, e):
+                    cn = F.ex[F.strip_casts(c)]
+                    if cn['k'] != 'bin' or cn['op'] not in ('<', '<=', '>', '>='):
+                        continue
+                    a, b = lin(cn['c'][0]), lin(cn['c'][1])
+                    if a is None or b is None:
+                        continue
+                    op = cn['op']
+                    if not pol:
+                        op = {'<': '>=', '<=': '>', '>': '<=', '>=': '<'}[op]
+                    d = dict(a[0])
+                    for v, q in b[0].items():
+                        d[v] = d.get(v, 0) - q
+                    k0 = b[1] - a[1]
+                    if op == '<=':
+                        po.add(d, k0)
+                    elif op == '<':
+                        po.add(d, k0 - 1)
+                    elif op == '>=':
+                        po.add_ge(d, k0)
+                    else:
+                        po.add_ge(d, k0 + 1)
+                ok = po.entails_ge(off[0], -off[1])
+                why = 'the conditions on the way make it non-negative' if ok else 'the conditions on the way do not keep it from being negative'
+            n += 1
+            chk.ob(rule, F.name, f'pointer-inside-own-buffer#{i_}', ok, F.where(e), f'`{F.s(e)[:70]}`: offset {off}: {why}')
+    return n
+
+
 def run(chk, P):
     r15_1(chk, P)
     chk.floor('R15.1', 100)
@@ -889,6 +1099,8 @@ def run(chk, P):
              'array (same obligations as R05.6) -- a hard minimum on quiet input drives the search to the top of the table')
     c05.r05_6(common.Proxy(chk, 'R15.14'), P)
     chk.floor('R15.14', 2)
+    r15_15(chk, P)
+    chk.floor('R15.15', 2)
     r15_2(chk, P)
     chk.floor('R15.2', 8)
     r15_3(chk, P)
